@@ -253,7 +253,17 @@ func (w *World) describeAnswer(rec *AskRec) string {
 			return fmt.Sprintf("same length as the output of handler invocation %d but %d bytes differ (first at %d, last at %d)", i+1, nd, first, last)
 		}
 	}
-	return "matches no handler output"
+	var lens []int
+	for _, hr := range rec.HandlerResp {
+		lens = append(lens, len(hr))
+	}
+	prefixOf := -1
+	for i, hr := range rec.HandlerResp {
+		if len(hr) >= len(rec.Got) && bytes.Equal(hr[:len(rec.Got)], rec.Got) {
+			prefixOf = i
+		}
+	}
+	return fmt.Sprintf("matches no handler output (handler invocations returned %v with outputs of %v bytes; asker buffer %d, response length planned %d; got is a prefix of invocation %d's output)", rec.HandlerRet, lens, rec.BufLen, rec.RespLen, prefixOf+1)
 }
 
 // overdueAsks is evaluated at quiescent points: an Ask whose context deadline has
